@@ -2,8 +2,79 @@
 open Model
 open Conv
 
+(* ---- WHERE / WHEREIN (Model.Where) ----
+   a value is one token  <kind 0..5>:<data hex>:<num>  with num = nan | -inf | +inf | <thousandths> *)
+let kind_of_string s =
+  match s with
+  | "0" -> KNull | "1" -> KFalse | "2" -> KNumber | "3" -> KString | "4" -> KTrue | "5" -> KJSON
+  | _ -> failwith "bad kind"
+let num_of_string s =
+  match s with
+  | "nan" -> NaN | "-inf" -> NegInf | "+inf" -> PosInf
+  | _ -> Fin (z_of_string s)
+let value_of_tok (t : string) : value =
+  match Stdlib.String.split_on_char ':' t with
+  | [k; d; n] -> { v_kind = kind_of_string k; v_data = bytes_of_hex d; v_num = num_of_string n }
+  | _ -> failwith "bad value"
+let rec take n l = if n <= 0 then ([], l) else
+  match l with [] -> failwith "short" | x :: r -> let (a, b) = take (n - 1) r in (x :: a, b)
+(* <nfields> {name val}  *)
+let parse_fields toks =
+  match toks with
+  | n :: r ->
+      let (fl, rest) = take (2 * int_of_string n) r in
+      let rec pairs l = match l with a :: b :: r -> (bytes_of_hex a, value_of_tok b) :: pairs r | _ -> [] in
+      (pairs fl, rest)
+  | [] -> failwith "short"
+(* <nwhere> {name minx min maxx max}  <nwherein> {name n {val}}  *)
+let parse_filters toks =
+  match toks with
+  | nw :: r ->
+      let rec wh k l acc = if k = 0 then (Stdlib.List.rev acc, l) else
+        match l with
+        | name :: minx :: mn :: maxx :: mx :: r ->
+            wh (k - 1) r ((bytes_of_hex name, where_make (minx = "1") (value_of_tok mn) (maxx = "1") (value_of_tok mx)) :: acc)
+        | _ -> failwith "short" in
+      let (ws, r) = wh (int_of_string nw) r [] in
+      (match r with
+       | ni :: r ->
+           let rec wi k l acc = if k = 0 then (Stdlib.List.rev acc, l) else
+             match l with
+             | name :: n :: r ->
+                 let (vs, r) = take (int_of_string n) r in
+                 wi (k - 1) r ((bytes_of_hex name, Stdlib.List.map value_of_tok vs) :: acc)
+             | _ -> failwith "short" in
+           let (wis, r) = wi (int_of_string ni) r [] in
+           (ws, wis, r)
+       | [] -> failwith "short")
+  | [] -> failwith "short"
+
 let handle (toks : string list) : string =
   match toks with
+  | ["value_less"; a; b] -> bool_str (value_less (value_of_tok a) (value_of_tok b))
+  | ["value_equals"; a; b] -> bool_str (value_equals (value_of_tok a) (value_of_tok b))
+  | ["str_less_ci"; a; b] -> bool_str (str_less_ci (bytes_of_hex a) (bytes_of_hex b))
+  | ["match_field"; minx; mn; maxx; mx; v] ->
+      bool_str (match_field (where_make (minx = "1") (value_of_tok mn) (maxx = "1") (value_of_tok mx)) (value_of_tok v))
+  | "wherein_match" :: v :: vals ->
+      bool_str (wherein_match (Stdlib.List.map value_of_tok vals) (value_of_tok v))
+  | "field_match" :: rest ->
+      (* field_match <nfields> {name val} <nwhere> ... <nwherein> ... *)
+      let (fs, rest) = parse_fields rest in
+      let (ws, wis, _) = parse_filters rest in
+      bool_str (field_match ws wis fs)
+  | "where_scan" :: d :: nobj :: rest ->
+      (* where_scan <desc> <nobj> {id <nfields> {name val}} <nwhere> ... <nwherein> ...
+         -> <count> {id}  ; the objects must be given in ascending id order *)
+      let rec objs k l acc = if k = 0 then (Stdlib.List.rev acc, l) else
+        match l with
+        | id :: r -> let (fs, r) = parse_fields r in objs (k - 1) r ((bytes_of_hex id, fs) :: acc)
+        | [] -> failwith "short" in
+      let (os, rest) = objs (int_of_string nobj) rest [] in
+      let (ws, wis, _) = parse_filters rest in
+      let ids = scan_ids (d = "1") os ws wis in
+      let cnt = scan_count (d = "1") os ws wis in
+      Stdlib.String.concat " " (string_of_int (int_of_nat cnt) :: Stdlib.List.map hex_of_bytes ids)
   | ["glob_match"; p; s] ->
       (match glob_match (bytes_of_hex p) (bytes_of_hex s) with
        | WTrue -> "T" | WFalse -> "F" | WBad -> "B" | WFuel -> "U")
